@@ -251,11 +251,11 @@ def run(ctx, rep):
                    "an object found under a peer-chosen name can be used (%s) without having passed %s"
                    % (p[-1].text()[:50] if p else "no vetting test found", what), ctx.loc(lk),
                    witness=ctx.path(p) if p else None)
-    gen = [c for c in A.find_calls(fl.node, "type") if len(c.args) == 3]
+    gen = [c for c in A.calls(fl.node) if len(c.args) == 3 and isinstance(c.args[1], ast.Tuple)]
     okgen = bool(gen) and all(isinstance(c.args[1], ast.Tuple) and [A.src(e) for e in c.args[1].elts] == ["GenericException"]
                               for c in gen)
     rep.ob("R07.5", "vinegar.load: stand-in classes derive from GenericException only", okgen,
-           "type(fullname, (GenericException,), ...)" if okgen else "the generic stand-in is built differently", fl.loc, kind="site")
+           "type(fullname, (GenericException,), ...)" if okgen else "the generic stand-in is built with other base classes", fl.loc, kind="site")
 
     # ------------------------------------------------------------------ R07.6
     reply_roots = [K.CONN + "._unbox", K.CONN + "._unbox_exc", K.CONN + "._netref_factory",
